@@ -1491,4 +1491,11 @@ theorem uadd_keeps_antiOwner_out {caps caps' : List Str} {c : Str} (h : C03.uadd
 
 example : (step cfg0 st0 (s "adm!a@admin.host") (.capAdd (s "eve") (s "-OWNER")) none).2 = false ∧
           (step cfg0 st0 (s "adm!a@admin.host") (.capAdd (s "eve") (s "-OWNER")) none).1.users = st0.users := by decide
+/-- a refused `hostmask add` leaves nothing behind: `eve` takes `ann*!*@*`; the admin's account then
+asks for `*bea!*@*`, which has hostmasks in common with it without matching it as a string —
+`setUser` refuses (hostmaskPatternsIntersect) and the account keeps exactly the hostmasks it had -/
+example :
+    let st1 := (step cfg0 st0 (s "eve!e@evil.host") (.hostmaskAdd (s "eve") (s "ann*!*@*") (s "p")) none)
+    let st2 := (step cfg0 st1.1 (s "adm!a@admin.host") (.hostmaskAdd (s " bob\tx") (s "*bea!*@*") (s "p")) none)
+    st1.2 = true ∧ st2.2 = false ∧ st2.1.users = st1.1.users := by decide
 end C02
